@@ -4,7 +4,7 @@ set -e
 cd "$(dirname "$0")"
 export GOFLAGS=-mod=mod GOPROXY=off GOSUMDB=off GOTOOLCHAIN=local CGO_ENABLED=0
 mkdir -p harness/bin evidence replays
-cp /repo/go.sum harness/go.sum
+cp ${VERIF_REPO:-/repo}/go.sum harness/go.sum
 (cd harness && go build -tags verif -o bin/ ./cmd/...)
 (cd tools && go build -o ../harness/bin/ ./cmd/...)
 ./check --regen-all
